@@ -3,6 +3,7 @@ import FunsorVerif.Core.Sexp
 import FunsorVerif.Core.XR
 import FunsorVerif.Model.TermParse
 import FunsorVerif.Model.C01Ext
+import FunsorVerif.Model.C01Fin
 namespace FV.Drv.C01
 open FV FV.C01
 
@@ -33,6 +34,8 @@ def ntTable (t : NT) (ins : List (Name × Nat)) (env : Env) : List (Option Sem) 
   C01 pevalInd FN "rv" "bv" "dv" size V   the model of Independent(FN, rv, bv, dv) with rv bound to the tensor term V
   C01 core TERM                         `ok true|false`: is TERM in the core fragment (Model/C01: `isCore`)
   C01 fv TERM                           free names of the term
+  C01 finstack d (TERM*)                the model of eager_finitary_stack (Model/C01Fin: `finStack`) on evaluated parts,
+                                        new event axis at position d
 -/
 def handle (args : List Sexp) : String :=
   match args with
@@ -69,6 +72,13 @@ def handle (args : List Sexp) : String :=
     match parseTerm t with
     | some t => "ok " ++ toString (Sexp.list (t.fv.map Sexp.str))
     | none => "err bad-term"
+  | [Sexp.atom "finstack", d, Sexp.list ts] =>
+    match d.asNat?, ts.mapM parseTerm with
+    | some d, some ts =>
+      match (pevalList ts).bind (finStack d) with
+      | some r => "ok " ++ toString (ntToSexp r)
+      | none => "ok none"
+    | _, _ => "err bad-args"
   | _ => "err bad-request"
 
 end FV.Drv.C01
